@@ -273,7 +273,7 @@ func genVector(r *rng, k int, big bool) (vec string, class string, sh vecShape) 
 	case 11:
 		s := strings.Join(toks, "/")
 		i := r.intn(len(s) + 1)
-		return s[:i] + pick(r, []string{" ", "\t", "\n", "\x00", "/", ":"}) + s[i:], "insert-byte", vecShape{}
+		return s[:i] + pick(r, []string{" ", "\t", "\n", "\x00", "/", ":", "é", "日", "\ufeff", "\u2028", "ſ", "K", "\xc3", "\xe6\x97", "%", "\\", "\r"}) + s[i:], "insert-byte", vecShape{}
 	case 12:
 		s := strings.Join(toks, "/")
 		return s[:r.intn(len(s)+1)], "truncate", vecShape{}
